@@ -15,7 +15,7 @@ import (
 // nothing is assumed about equivalence; the point is that every semantic
 // generator also exercises its subject from inside the other constructs.
 var placementNames = []string{"top-level", "in-block", "in-function", "in-loop-once", "in-if-arm", "in-nested-function", "in-function-called-3-times", "in-loop-3-iterations",
-	"twice-verbatim", "after-skipped-copy", "shifted-lines-and-columns"}
+	"twice-verbatim", "after-skipped-copy", "shifted-lines-and-columns", "squeezed", "squeezed-in-function"}
 
 func indent(src string) string {
 	lines := strings.Split(strings.TrimSuffix(src, "\n"), "\n")
@@ -64,6 +64,16 @@ func place(src string, k int) string {
 			}
 		}
 		return strings.Repeat("\n", 1000) + "// padding above\n" + strings.Join(lines, "\n") + "\n"
+	case 11:
+		// every optional blank removed (tokens that may touch do), every token still on its line
+		if sq, ok := squeezeText(src); ok {
+			return sq
+		}
+	case 12:
+		if sq, ok := squeezeText(place(src, 2)); ok {
+			return sq
+		}
+		return place(src, 2)
 	}
 	return src
 }
